@@ -227,6 +227,7 @@ def run(ctx):
         vis = sorted(k for k, v in enumerate(runs[0][1]["visited"]) if v)
         terms.append(("(%s, %s)" % (C.coq_list([C.coq_list([str(x) for x in l]) for l in g]), C.coq_list([str(s) for s in srcs])), "(Some %s)" % C.coq_list([str(x) for x in vis])))
     same_name_chains(ctx, vh, work)
+    non_widget_components(ctx, vh, work)
     shutil.rmtree(work, ignore_errors=True)
     ctx.sample({"files": layouts[0].files})
     ctx.coverage["compared_with_model"] = len(terms)
@@ -243,6 +244,45 @@ def run(ctx):
         mo = C.coq_eval_terms("c18_model", HEADER, ["disc_case %s" % terms[j][0]], scope="nat_scope")
         ctx.broke("K", "qmldir.rs populate_directories vs model/Modules.v", "model and implementation differ on %d layouts; first: graph/sources %s\nmodel=%s impl=%s"
                   % (len(bad), terms[j][0], mo[0], terms[j][1]))
+
+
+def non_widget_components(ctx, vh, work):
+    """components whose root object is not a widget (a layout, an action, a menu, a spacer): instantiated, they are custom classes of the form like any other --
+    one <customwidget> entry each, extending the root class"""
+    roots = [("QHBoxLayout", "spacing: 3", "layout"), ("QGridLayout", "spacing: 2", "layout"), ("QVBoxLayout", "spacing: 1", "layout"),
+             ("QAction", 'text: "t"', "action"), ("QMenu", 'title: "m"', "menu"), ("QSpacerItem", "", "spacer"), ("QPushButton", 'text: "b"', "widget")]
+    cases, meta = [], []
+    for k, (root_cls, prop, kind) in enumerate(roots):
+        root = os.path.join(work, "nw%d" % k)
+        files = {"parts/Part.qml": "import qmluic.QtWidgets\n%s {\n}\n" % root_cls, "parts/Ok.qml": "import qmluic.QtWidgets\nQPushButton {\n}\n"}
+        inst = "Part { id: part; %s }" % prop
+        if kind in ("layout", "spacer", "widget"):
+            body = "    QVBoxLayout {\n        %s\n        Ok { id: ok }\n    }\n" % inst
+        else:
+            body = "    %s\n    QVBoxLayout {\n        Ok { id: ok }\n    }\n" % inst
+        files["Main.qml"] = 'import qmluic.QtWidgets\nimport "parts"\nQWidget {\n%s}\n' % body
+        for f, t in files.items():
+            os.makedirs(os.path.dirname(os.path.join(root, f)), exist_ok=True)
+            open(os.path.join(root, f), "w").write(t)
+        cases.append({"root": root, "sources": ["Main.qml"], "dirs": ["parts"]})
+        meta.append((root_cls, kind, files))
+        ctx.dist("non-widget-component-" + kind)
+    out = C.harness_run(vh, "project", cases, timeout=300)
+    for (root_cls, kind, files), res in zip(meta, out):
+        ctx.count(("non-widget-component", root_cls), True)
+        rep = {"files": files, "sources": ["Main.qml"]}
+        if not isinstance(res, dict) or "docs" not in res:
+            ctx.violation("translation does not terminate normally on a %s-rooted component: %s" % (root_cls, str(res)[:300]), dict(rep, impl_output=str(res)[:1000]))
+            continue
+        d = res["docs"][0]
+        errs = [x for x in d.get("diags", []) if x["kind"] == "error"]
+        if errs or not d.get("ui"):
+            ctx.violation("an instance of a component whose root is %s is rejected: %s" % (root_cls, errs[0]["msg"] if errs else "no form"), dict(rep, impl_output=errs))
+            continue
+        got = customwidgets(d["ui"])
+        exp = sorted([("Part", root_cls, "part.h"), ("Ok", "QPushButton", "ok.h")])
+        if sorted(got) != exp:
+            ctx.violation("<customwidgets> with a %s-rooted component: %r, expected %r" % (root_cls, got, exp), dict(rep, impl_output=d["ui"], theorem_or_correspondence="C18_customwidgets_once / S"))
 
 
 def same_name_chains(ctx, vh, work):
